@@ -1,17 +1,70 @@
-"""C05 register allocation preserves meaning - enumerated Compiler programs, native execution vs. reference interpreter (harness/c05_ra.cpp)."""
-from lib import runner
+"""C05 register allocation preserves meaning.
+
+Two harnesses:
+  harness/c05_ra.cpp    - enumerated Compiler programs, native execution (x86-64) / node-level simulation (x86-32, AArch64)
+                          against a reference interpreter
+  harness/c05_lists.cpp - register-list instructions that need consecutive physical registers (AArch64 ld1..ld4/st1..st4/
+                          tbl/tbx, x86 vp2intersect mask pairs): uninterpreted-term simulation of the allocated node list.
+                          Which operands are read / written is taken from the ISA database of the tree under test
+                          (db/isa_aarch64.json, db/isa_x86.json) and handed to the harness with --roles.
+"""
+import json, os, re
+from lib import runner, vbuild
 
 LEVEL = "model_checking"
 SRC = "harness/c05_ra.cpp"
+SRC_LISTS = "harness/c05_lists.cpp"
+
+
+def _role(letter):
+    return {"d": "W", "x": "X"}.get(letter, "R")
+
+
+def isa_roles():
+    """form class -> roles of its operand groups, from the ISA database (naming: Vd written, Vx read+written, Vs/Vn/Vm read;
+    x86: W:/X:/R: prefixes, no prefix = read)."""
+    a64 = open(os.path.join(vbuild.REPO, "db", "isa_aarch64.json")).read()
+    x86 = open(os.path.join(vbuild.REPO, "db", "isa_x86.json")).read()
+    roles = {}
+
+    def first(pattern, text):
+        m = re.search(pattern, text)
+        if not m:
+            raise SystemExit("c05: ISA database entry not found: " + pattern)
+        return m
+
+    for n in (1, 2, 3, 4):
+        roles["ld%d" % n] = _role(first(r'"inst": "ld%d %dx\{V(\w)\.t\}' % (n, max(n, 2) if n > 1 else 2), a64).group(1))
+        roles["st%d" % n] = _role(first(r'"inst": "st%d %dx\{V(\w)\.t\}' % (n, max(n, 2) if n > 1 else 2), a64).group(1))
+    for n in (2, 4):
+        roles["ld%dr" % n] = _role(first(r'"inst": "ld%dr %dx\{V(\w)\.t\}' % (n, n), a64).group(1))
+    for n in (2, 3):
+        roles["ld%dlane" % n] = _role(first(r'"inst": "ld%d %dx\{V(\w)\.S\}\+?\[#idx\]' % (n, n), a64).group(1))
+    roles["st2lane"] = _role(first(r'"inst": "st2 2x\{V(\w)\.S\}\+?\[#idx\]', a64).group(1))
+    for mn in ("tbl", "tbx"):
+        m = first(r'"inst": "%s V(\w)\.16B, 2x\{V(\w)\.16B\}\+?, V(\w)\.16B"' % mn, a64)
+        roles[mn] = ",".join(_role(m.group(i)) for i in (1, 2, 3))
+    for mn in ("vp2intersectd", "vp2intersectq"):
+        m = first(r'"any": "%s ([^"]+)"' % mn, x86)
+        ops = [o.strip() for o in m.group(1).split(",")]
+        roles[mn] = ",".join((o[0] if re.match(r"[RWX]:", o) else "R") for o in ops)
+    return ";".join("%s=%s" % kv for kv in sorted(roles.items()))
 
 
 def run(res, ctx):
     tier = ctx["tier"]
+    largs = ["--roles", isa_roles()]
     if tier == "quick":
         runner.run_harness(res, SRC, "asan", tier, deadline=400, timeout=900, shards=16)
+        runner.run_harness(res, SRC_LISTS, "asan", tier, args=largs, deadline=300, timeout=900, shards=16)
     else:
         runner.run_harness(res, SRC, "asan", tier, deadline=3000, timeout=4000, shards=16)
+        runner.run_harness(res, SRC_LISTS, "asan", tier, args=largs, deadline=1500, timeout=2400, shards=16)
 
 
 def replay(res, path, ctx):
-    runner.run_harness(res, SRC, "asan", ctx["tier"], args=["--quiet", "1"], replay=path, timeout=300)
+    text = open(path).read()
+    if "harness=c05_lists" in text:
+        runner.run_harness(res, SRC_LISTS, "asan", ctx["tier"], args=["--quiet", "1", "--roles", isa_roles()], replay=path, timeout=300)
+    else:
+        runner.run_harness(res, SRC, "asan", ctx["tier"], args=["--quiet", "1"], replay=path, timeout=300)
